@@ -332,7 +332,7 @@ func (s *Scenario) Body() (func(), *Run) {
 		r.overbar = &vs.WaitGroup{}
 		nb := 0
 		for _, k := range s.Dec {
-			if k == probe.OverBar {
+			if k == probe.OverBar || k == probe.Bar {
 				nb++
 			}
 		}
@@ -551,6 +551,22 @@ func Check(r *Run, ex *vs.Exec) []Finding {
 		if k == probe.OverBar {
 			nOver++
 		}
+	}
+	nBar := 0
+	for _, k := range s.Dec {
+		if k == probe.Bar {
+			nBar++
+		}
+	}
+	if nBar > 0 && !(len(ex.Threads) > 0 && ex.Threads[0].Done) {
+		var blocked []string
+		for _, t := range ex.Threads {
+			if !t.Done {
+				blocked = append(blocked, fmt.Sprintf("T%d(%s) on %s", t.ID, t.Name, t.Pending))
+			}
+		}
+		add("C03", "capacity lost: %d user functions that are all runnable and must execute at the same time (limit %d) never all ran; blocked: %s", nBar, nBar, strings.Join(blocked, "; "))
+		return out
 	}
 	if s.OverN > 0 {
 		nOver = s.OverN
